@@ -132,6 +132,9 @@ PROPS['C03'] = {
     'deadline': {'quick': 170, 'thorough': 1700},
 }
 
+PROPS['C03']['parts'] += [{'src': 'harness/sheter.cpp', 'prefix': 'C03/heter/', 'variants': ['g17']}]
+PROPS['C03']['rule'] += '; plus (an extension beyond the anchored classes) HeterCallbackList / HeterEventDispatcher with the injected Threading policy: all pairs of {append/prepend per prototype, invoke per prototype, remove of a pre-registered handle, append under a second event} on 2 threads, triples around the lazily created per-prototype list, 2x2 programs in the thorough tier; the inner per-prototype lists (which always use std::mutex) are atomic blocks; oracle: nothing registered is lost or duplicated after the threads joined, a handle is removed at most once, an invocation calls nothing twice and nothing of another prototype, no deadlock'
+
 PROPS['C05'] = {
     'title': 'EventQueue consumes every queued event exactly once, in FIFO order',
     'level': 'model_checking',
